@@ -15,6 +15,7 @@ package vault
 // The property's predicate is evaluated here on the real core's answers (marker `!VIOL:` on `state` lines).
 
 import (
+	"fmt"
 	"encoding/json"
 	"sort"
 	"strconv"
@@ -1023,6 +1024,7 @@ func TestVerifC04Seq(t *testing.T) {
 	if vh.Thorough() {
 		nCases = vh.EnvInt("VERIF_C04_SEQ", 600)
 	}
+	c04NsCases(t, out)
 	w := c04NewWorld(t, out)
 	for ci := 0; ci < nCases; ci++ {
 		cr := rng.Fork(uint64(ci))
@@ -1159,6 +1161,76 @@ func c04FaultCase(rng *vh.Rand) (c04Shape, string, int, int) {
 		r = 1 + rng.Intn(n)
 	}
 	return sh, how, r, target
+}
+
+// c04NsCases: revocation ACROSS namespaces (predicate level; the trace model covers the root namespace). A token of the
+// root namespace whose policy reaches into child namespace c04ns/ obtains a leased secret THERE; the token is then
+// revoked in every way (revoke, revoke-self, revoke by accessor, tree revocation of its parent, revoke-orphan sent
+// through the child namespace's token mount): afterwards the token must be rejected and its lease revoked at the
+// backend of the child namespace. Op line: nscase <how> => <class>|<dead|alive>|leases:<issued>/<revoked>
+func c04NsCases(t *testing.T, out *vh.Out) {
+	for _, how := range []string{"revoke", "self", "accessor", "tree", "orphan-via-child"} {
+		p := vhNewPhys(t)
+		var rec *vhRecBackend
+		c, _, root := vhNewCore(t, p, &rec, nil)
+		if cl, _ := vhReq(c, logical.UpdateOperation, "sys/namespaces/c04ns", root, nil); cl != "ok" {
+			t.Fatalf("namespace: %s", cl)
+		}
+		if cl, _ := vhReq(c, logical.UpdateOperation, "c04ns/sys/mounts/rec", root, map[string]any{"type": "vhrec"}); cl != "ok" {
+			t.Fatalf("ns mount: %s", cl)
+		}
+		if cl, _ := vhReq(c, logical.UpdateOperation, "sys/policy/c04reach", root, map[string]any{"policy": `
+path "c04ns/rec/*" { capabilities = ["read"] }
+path "auth/token/*" { capabilities = ["create", "update", "read"] }`}); cl != "ok" {
+			t.Fatalf("policy: %s", cl)
+		}
+		par := vhCreateToken(t, c, root, map[string]any{"ttl": "1h", "policies": []string{"c04reach"}})
+		cl, resp := vhReq(c, logical.UpdateOperation, "auth/token/create", par, map[string]any{"ttl": "30m", "policies": []string{"c04reach"}})
+		if cl != "ok" || resp == nil || resp.Auth == nil {
+			t.Fatalf("child token: %s", cl)
+		}
+		tok, acc := resp.Auth.ClientToken, resp.Auth.Accessor
+		if cl, _ := vhReq(c, logical.ReadOperation, "c04ns/rec/lease/a", tok, nil); cl != "ok" {
+			t.Fatalf("lease in child namespace: %s", cl)
+		}
+		out.Reset()
+		var rcl string
+		switch how {
+		case "revoke":
+			rcl, _ = vhReq(c, logical.UpdateOperation, "auth/token/revoke", root, map[string]any{"token": tok})
+		case "self":
+			rcl, _ = vhReq(c, logical.UpdateOperation, "auth/token/revoke-self", tok, nil)
+		case "accessor":
+			rcl, _ = vhReq(c, logical.UpdateOperation, "auth/token/revoke-accessor", root, map[string]any{"accessor": acc})
+		case "tree":
+			rcl, _ = vhReq(c, logical.UpdateOperation, "auth/token/revoke", root, map[string]any{"token": par})
+		case "orphan-via-child":
+			rcl, _ = vhReq(c, logical.UpdateOperation, "c04ns/auth/token/revoke-orphan", root, map[string]any{"token": tok})
+		}
+		state := "alive"
+		issued, revoked := 0, 0
+		for i := 0; i < 400; i++ {
+			lcl, _ := vhReq(c, logical.ReadOperation, "auth/token/lookup-self", tok, nil)
+			_, is, rv := rec.Snapshot()
+			issued, revoked = len(is), len(rv)
+			if lcl != "ok" {
+				state = "dead"
+				if revoked >= issued {
+					break
+				}
+			}
+			time.Sleep(5 * time.Millisecond)
+		}
+		viol := ""
+		switch {
+		case rcl == "ok" && state != "dead":
+			viol = "!C04V:revocation (" + how + ") of a root-namespace token reported success but the token is still valid#ns:revoked-token-alive"
+		case state == "dead" && revoked < issued:
+			viol = "!C04V:the token was revoked (" + how + ") but the lease it obtained in a child namespace is still live at its backend#ns:lease-in-child-namespace-survives"
+		}
+		out.Op(fmt.Sprintf("%s|%s|leases:%d/%d%s", rcl, state, issued, revoked, viol), "nscase", how)
+		_ = c.Shutdown()
+	}
 }
 
 func TestVerifC04Fault(t *testing.T) {
